@@ -389,10 +389,13 @@ class Engine(object):
         rp = getattr(self.queue, 'relay_pool', None)
         if self.in_flight or [g for g in self.pending if g.kind != 'wait']:
             return
+        def full(pool):
+            # a finished greenlet keeps its slot until the hub has run its completion callback: that is not a jam
+            return pool is not None and pool.free_count() == 0 and all(not g.dead for g in pool.greenlets)
         which = None
-        if sp is not None and sp.free_count() == 0:
+        if full(sp):
             which = 'store_pool (size %d)' % sp.size
-        elif rp is not None and rp.free_count() == 0:
+        elif full(rp):
             which = 'relay_pool (size %d)' % rp.size
         if which:
             self.jam_seen = which
@@ -567,13 +570,23 @@ class Engine(object):
             elif shape == 'raise_p':
                 kind, k = 'perm', rsel[0]
             results.append((r, kind, k))
+        # the same address may occur twice in a message (two RCPT commands): a per-recipient result is keyed by address, so every
+        # occurrence gets the verdict of the first one
+        first = {}
+        results = [(r,) + first.setdefault(r, (kind, k)) for r, kind, k in results]
         # model
         if m is not None:
             groups = collections.OrderedDict()
             temps = []
+            pre = set(r for r in rcpts if m.state.get(r) == 'out')
+            seen = set()
             for r, kind, k in results:
-                if m.state.get(r) != 'out':
+                if r not in pre:
                     continue
+                if shape in ('map', 'seq'):
+                    if r in seen:
+                        continue        # one verdict, one bounce entry per address
+                    seen.add(r)
                 if kind == 'ok':
                     m.state[r] = 'ok'
                 elif kind == 'perm':
@@ -687,6 +700,9 @@ class Engine(object):
         tag = 'm%d' % self.nmsg
         n = max(1, min(8 if spec.get('many') else 4, int(spec.get('n', 1))))
         rcpts = ['r%d@%s.example' % (i, tag) for i in range(n)]
+        if spec.get('dup') and n >= 2:
+            rcpts[-1] = rcpts[0]          # the same address given in two RCPT commands
+            self.labels.add('repeated-recipient')
         sender = 's@%s.example' % tag if spec.get('sender', True) else ''
         env = Envelope(sender, list(rcpts))
         body = bytes.fromhex(spec['body']) if spec.get('body') else b'body of %s\r\n' % tag.encode()
